@@ -5,6 +5,7 @@ package main
 import (
 	"fmt"
 	"go/ast"
+	"go/constant"
 	"go/token"
 	"go/types"
 	"sort"
@@ -127,6 +128,11 @@ func checkC06(ctx *Ctx, r *Report) {
 	c06Reach(ctx, r)
 	c05Visitor(ctx, r)
 	c06NullableCarried(ctx, r, chains)
+	c06NameDecisions(ctx, r)
+	c06NullUnionBothOrders(ctx, r)
+	c06NullableGuardExact(ctx, r)
+	c06ResolveBeforeKindTest(ctx, r)
+	inProgressRestored(ctx, r, []string{"internal/ast/compiler/"}, 1)
 }
 
 // child positions per container kind (field names in internal/ast)
@@ -359,6 +365,9 @@ func c06HandRolled(ctx *Ctx, r *Report, p passInfo, info *types.Info) {
 			}
 		}
 		recursed := false
+		filtered := ""
+		var filteredAt token.Pos
+		hparents := parentMap(hfd)
 		ranges := map[types.Object]ast.Expr{}
 		ast.Inspect(hfd.Body, func(n ast.Node) bool {
 			if rs, ok := n.(*ast.RangeStmt); ok {
@@ -392,6 +401,10 @@ func c06HandRolled(ctx *Ctx, r *Report, p passInfo, info *types.Info) {
 					for _, sp := range ap.steps {
 						if sp.field != nil && childFields[sp.field] {
 							recursed = true
+							if why := conditionalIn(info, hparents, hfd, c); why != "" && filtered == "" {
+								filtered = why
+								filteredAt = c.Pos()
+							}
 						}
 					}
 					if rx, isRange := ranges[ap.root]; isRange {
@@ -405,7 +418,65 @@ func c06HandRolled(ctx *Ctx, r *Report, p passInfo, info *types.Info) {
 		})
 		r.Check(recursed, "traverse/reach", cons, hfd.Pos(), "the handler recurses into the kind's children",
 			fmt.Sprintf("the %s handler of %s does not call the recursion on the %s's children: nested occurrences are not reached", strings.ToLower(kind), pname, strings.ToLower(kind)))
+		if recursed {
+			if filtered == "" {
+				filteredAt = hfd.Pos()
+			}
+			r.Check(filtered == "", "traverse/unfiltered-descent", cons+" (every child)", filteredAt, "the recursion on the children is unconditional",
+				fmt.Sprintf("the %s handler of %s only recurses into some children (%s): the others keep the construct the pass removes, so the normal form does not hold for them", strings.ToLower(kind), pname, filtered))
+		}
 	}
+}
+
+// conditionalIn: is the call control-dependent on a condition inside fd — an enclosing if / switch / select, or an earlier
+// statement of an enclosing block that may leave it (if … { continue / break / return })? Returns a description, "" if not.
+func conditionalIn(info *types.Info, parents map[ast.Node]ast.Node, fd *ast.FuncDecl, call ast.Node) string {
+	var child ast.Node = call
+	for n := parents[call]; n != nil; child, n = n, parents[n] {
+		switch x := n.(type) {
+		case *ast.IfStmt:
+			if child != ast.Node(x.Init) && child != ast.Node(x.Cond) {
+				return "under `if " + exprString(x.Cond) + "`"
+			}
+		case *ast.CaseClause, *ast.CommClause:
+			return "in a case of a switch"
+		case *ast.BinaryExpr:
+			if (x.Op == token.LAND || x.Op == token.LOR) && child == ast.Node(x.Y) {
+				return "as the right operand of " + x.Op.String()
+			}
+		case *ast.BlockStmt:
+			for _, st := range x.List {
+				if st.Pos() >= child.Pos() {
+					break
+				}
+				if is, ok := st.(*ast.IfStmt); ok {
+					leaves := false
+					ast.Inspect(is, func(q ast.Node) bool {
+						switch b := q.(type) {
+						case *ast.FuncLit:
+							return false
+						case *ast.BranchStmt:
+							if b.Tok == token.CONTINUE || b.Tok == token.BREAK || b.Tok == token.GOTO {
+								leaves = true
+							}
+						case *ast.ReturnStmt:
+							leaves = true
+						}
+						return true
+					})
+					if leaves {
+						return "after `if " + exprString(is.Cond) + " { … }` which leaves the block"
+					}
+				}
+			}
+		case *ast.FuncDecl:
+			return ""
+		}
+		if n == ast.Node(fd) {
+			break
+		}
+	}
+	return ""
 }
 
 // c06NullableCarried: once NotRequiredFieldAsNullableType has run, a later pass
@@ -627,6 +698,475 @@ func sameBranch(parents map[ast.Node]ast.Node, as ast.Node, rs ast.Node) bool {
 			continue
 		}
 		return retBlocks[blk]
+	}
+	return false
+}
+
+// c06NameDecisions: the three clauses about enum member names ("prefixed", "never purely numeric", "sanitised") are
+// statements about names of *all* enums. In the passes that establish them, whether a member is renamed may depend on the
+// member's name only: every condition that controls a write to EnumValue.Name (enclosing if, earlier `if … { continue }`)
+// reads nothing of the member but .Name. A condition on the member's type or value exempts some enums from the clause.
+func c06NameDecisions(ctx *Ctx, r *Report) {
+	pkg := ctx.Pkg("internal/ast/compiler")
+	enumValueT := ctx.LookupType("internal/ast", "EnumValue")
+	if pkg == nil || enumValueT == nil {
+		r.Undecided("anchor lost: internal/ast/compiler or ast.EnumValue")
+		return
+	}
+	info := pkg.TypesInfo
+	// PrefixEnumValues names string members after their value on purpose ("" → None): its decision reads Value and Type in
+	// enumMemberNameFromValue, but the prefix itself is applied unconditionally — checked as such.
+	for _, pname := range []string{"PrefixEnumValues", "RenameNumericEnumValues", "SanitizeEnumMemberNames"} {
+		nt := ctx.LookupType("internal/ast/compiler", pname)
+		if nt == nil {
+			r.Undecided("anchor lost: pass %s", pname)
+			continue
+		}
+		writes := 0
+		for _, fd := range methodsOf(ctx, nt) {
+			fobj, _ := info.Defs[fd.Name].(*types.Func)
+			parents := parentMap(fd)
+			check := func(at ast.Node, what string) {
+				writes++
+				bad := ""
+				for _, ctl := range controllingIfs(parents, fd, at) {
+					for _, e := range []ast.Node{ctl.Init, ctl.Cond} {
+						if e == nil || bad != "" {
+							continue
+						}
+						ast.Inspect(e, func(q ast.Node) bool {
+							switch x := q.(type) {
+							case *ast.SelectorExpr:
+								if namedOf(info.TypeOf(x.X)) == enumValueT && x.Sel.Name != "Name" {
+									bad = exprString(x) + " in `" + exprString(ctl.Cond) + "`"
+								}
+							case *ast.CallExpr:
+								for _, a := range x.Args {
+									if namedOf(info.TypeOf(a)) == enumValueT {
+										bad = "the whole member handed to " + exprString(x.Fun) + " in `" + exprString(ctl.Cond) + "`"
+									}
+								}
+							}
+							return bad == ""
+						})
+					}
+				}
+				if pname == "PrefixEnumValues" && bad == "" && len(controllingIfs(parents, fd, at)) > 0 {
+					bad = "a condition (`" + exprString(controllingIfs(parents, fd, at)[0].Cond) + "`)"
+				}
+				r.Check(bad == "", "normalform/name-only-decision", fmt.Sprintf("%s %s #%d", ctx.FuncName(fobj), what, writes), at.Pos(), "whether the member is renamed depends on its name only",
+					fmt.Sprintf("%s decides whether a member is renamed from %s: enums for which that differs keep names the clause excludes for every enum (the property is stated for all enums, string enums with digit-only member names included)", ctx.FuncName(fobj), bad))
+			}
+			ast.Inspect(fd.Body, func(m ast.Node) bool {
+				switch x := m.(type) {
+				case *ast.AssignStmt:
+					for _, l := range x.Lhs {
+						if s, ok := ast.Unparen(l).(*ast.SelectorExpr); ok && s.Sel.Name == "Name" && namedOf(info.TypeOf(s.X)) == enumValueT {
+							// writes in helper functions that take the member by value and return it are controlled by their callers too; the
+							// helper's own conditions are what matters here
+							check(x, "writes "+exprString(l))
+						}
+					}
+				case *ast.CompositeLit:
+					if namedOf(info.TypeOf(x)) == enumValueT {
+						for _, el := range x.Elts {
+							if kv, ok := el.(*ast.KeyValueExpr); ok {
+								if id, ok := kv.Key.(*ast.Ident); ok && id.Name == "Name" {
+									check(x, "builds a member name")
+								}
+							}
+						}
+					}
+				}
+				return true
+			})
+		}
+		r.Count("writes to enum member names in the renaming passes", writes)
+	}
+	r.Floor("writes to enum member names in the renaming passes", 4)
+}
+
+// controllingIfs: the if statements of fd on which `at` is control-dependent: those enclosing it (body or else) and the
+// earlier ones of an enclosing block that may leave the block.
+func controllingIfs(parents map[ast.Node]ast.Node, fd *ast.FuncDecl, at ast.Node) []*ast.IfStmt {
+	var out []*ast.IfStmt
+	var child ast.Node = at
+	for n := parents[at]; n != nil; child, n = n, parents[n] {
+		switch x := n.(type) {
+		case *ast.IfStmt:
+			if child != ast.Node(x.Init) && child != ast.Node(x.Cond) {
+				out = append(out, x)
+			}
+		case *ast.BlockStmt:
+			for _, st := range x.List {
+				if st.Pos() >= child.Pos() {
+					break
+				}
+				if is, ok := st.(*ast.IfStmt); ok {
+					leaves := false
+					ast.Inspect(is, func(q ast.Node) bool {
+						switch b := q.(type) {
+						case *ast.FuncLit:
+							return false
+						case *ast.BranchStmt:
+							leaves = leaves || b.Tok == token.CONTINUE || b.Tok == token.BREAK || b.Tok == token.GOTO
+						case *ast.ReturnStmt:
+							leaves = true
+						}
+						return true
+					})
+					if leaves {
+						out = append(out, is)
+					}
+				}
+			}
+		}
+		if n == ast.Node(fd) {
+			break
+		}
+	}
+	return out
+}
+
+// c06NullUnionBothOrders: "no two-branch `T | null` union remains" — unions are not ordered, `null | T` is the same
+// union. The early exits of DisjunctionWithNullToOptional.processDisjunction ("not my case: hand the type back") are
+// evaluated, three-valued, for a two-branch union whose first / second branch is null: neither may be sent back for sure.
+// Atoms understood: len(….Branches) against a constant, ….HasNullType(), ….Branches[k].IsNull(), len(v) against a
+// constant with v := ….NonNullTypes(), def.IsDisjunction(); anything else is unknown (and never makes the rule fire).
+func c06NullUnionBothOrders(ctx *Ctx, r *Report) {
+	pkg := ctx.Pkg("internal/ast/compiler")
+	nt := ctx.LookupType("internal/ast/compiler", "DisjunctionWithNullToOptional")
+	if pkg == nil || nt == nil {
+		r.Undecided("anchor lost: DisjunctionWithNullToOptional")
+		return
+	}
+	info := pkg.TypesInfo
+	var fd *ast.FuncDecl
+	for _, m := range methodsOf(ctx, nt) {
+		if m.Name.Name == "processDisjunction" {
+			fd = m
+		}
+	}
+	if fd == nil {
+		r.Undecided("anchor lost: DisjunctionWithNullToOptional.processDisjunction")
+		return
+	}
+	// the helpers must mean what their names say: a loop over the receiver testing IsNull
+	for _, h := range []string{"HasNullType", "NonNullTypes"} {
+		hm := ctx.LookupMethod("internal/ast", "Types", h)
+		ok := false
+		if hfd, _ := ctx.DeclOf(hm); hfd != nil {
+			hasRange, hasNull := false, false
+			ast.Inspect(hfd.Body, func(q ast.Node) bool {
+				if _, isR := q.(*ast.RangeStmt); isR {
+					hasRange = true
+				}
+				if s, isS := q.(*ast.SelectorExpr); isS && s.Sel.Name == "IsNull" {
+					hasNull = true
+				}
+				return true
+			})
+			ok = hasRange && hasNull
+		}
+		if !ok {
+			r.Undecided("anchor lost: ast.Types.%s is no longer a loop over the branches testing IsNull", h)
+			return
+		}
+	}
+	var typeParam types.Object
+	for _, f := range fd.Type.Params.List {
+		for _, nm := range f.Names {
+			if namedOf(info.TypeOf(nm)) == ctx.LookupType("internal/ast", "Type") {
+				typeParam = info.Defs[nm]
+			}
+		}
+	}
+	nonNullVars := map[types.Object]bool{}
+	ast.Inspect(fd.Body, func(q ast.Node) bool {
+		if as, ok := q.(*ast.AssignStmt); ok && len(as.Lhs) == 1 && len(as.Rhs) == 1 {
+			if c, ok := ast.Unparen(as.Rhs[0]).(*ast.CallExpr); ok {
+				if fn := callee(info, c); fn != nil && fn.Name() == "NonNullTypes" {
+					if id, ok := as.Lhs[0].(*ast.Ident); ok {
+						nonNullVars[objOf(info, id)] = true
+					}
+				}
+			}
+		}
+		return true
+	})
+	const (
+		F = 0
+		T = 1
+		U = 2
+	)
+	cmp := func(op token.Token, a, b int64) int {
+		res := false
+		switch op {
+		case token.EQL:
+			res = a == b
+		case token.NEQ:
+			res = a != b
+		case token.LSS:
+			res = a < b
+		case token.LEQ:
+			res = a <= b
+		case token.GTR:
+			res = a > b
+		case token.GEQ:
+			res = a >= b
+		default:
+			return U
+		}
+		if res {
+			return T
+		}
+		return F
+	}
+	var eval func(e ast.Expr, null [2]bool) int
+	eval = func(e ast.Expr, null [2]bool) int {
+		e = ast.Unparen(e)
+		switch x := e.(type) {
+		case *ast.UnaryExpr:
+			if x.Op == token.NOT {
+				switch eval(x.X, null) {
+				case T:
+					return F
+				case F:
+					return T
+				}
+			}
+			return U
+		case *ast.BinaryExpr:
+			switch x.Op {
+			case token.LAND:
+				a, b := eval(x.X, null), eval(x.Y, null)
+				if a == F || b == F {
+					return F
+				}
+				if a == T && b == T {
+					return T
+				}
+				return U
+			case token.LOR:
+				a, b := eval(x.X, null), eval(x.Y, null)
+				if a == T || b == T {
+					return T
+				}
+				if a == F && b == F {
+					return F
+				}
+				return U
+			}
+			// len(X) op const
+			if c, ok := ast.Unparen(x.X).(*ast.CallExpr); ok {
+				if id, ok := c.Fun.(*ast.Ident); ok && id.Name == "len" && len(c.Args) == 1 {
+					tv, isConst := info.Types[x.Y]
+					if !isConst || tv.Value == nil {
+						return U
+					}
+					k, exact := constantInt64(tv)
+					if !exact {
+						return U
+					}
+					arg := ast.Unparen(c.Args[0])
+					if s, ok := arg.(*ast.SelectorExpr); ok && s.Sel.Name == "Branches" {
+						return cmp(x.Op, 2, k)
+					}
+					if aid, ok := arg.(*ast.Ident); ok && nonNullVars[objOf(info, aid)] {
+						n := int64(0)
+						for _, b := range null {
+							if !b {
+								n++
+							}
+						}
+						return cmp(x.Op, n, k)
+					}
+				}
+			}
+			return U
+		case *ast.CallExpr:
+			fn := callee(info, x)
+			sel, _ := x.Fun.(*ast.SelectorExpr)
+			if fn == nil || sel == nil {
+				return U
+			}
+			switch fn.Name() {
+			case "HasNullType":
+				if null[0] || null[1] {
+					return T
+				}
+				return F
+			case "IsDisjunction":
+				if id, ok := ast.Unparen(sel.X).(*ast.Ident); ok && objOf(info, id) == typeParam {
+					return T
+				}
+			case "IsNull":
+				if ix, ok := ast.Unparen(sel.X).(*ast.IndexExpr); ok {
+					if tv, ok := info.Types[ix.Index]; ok && tv.Value != nil {
+						if k, exact := constantInt64(tv); exact && (k == 0 || k == 1) {
+							if s, ok := ast.Unparen(ix.X).(*ast.SelectorExpr); ok && s.Sel.Name == "Branches" {
+								if null[k] {
+									return T
+								}
+								return F
+							}
+						}
+					}
+				}
+			}
+		}
+		return U
+	}
+	c06NullUnionRemainder(ctx, r, info, fd, typeParam, nonNullVars)
+	for _, c := range []struct {
+		name string
+		null [2]bool
+	}{{"T | null", [2]bool{false, true}}, {"null | T", [2]bool{true, false}}} {
+		sentBack := ""
+		var at token.Pos = fd.Pos()
+		for _, st := range fd.Body.List {
+			is, ok := st.(*ast.IfStmt)
+			if !ok || is.Else != nil || len(is.Body.List) == 0 {
+				continue
+			}
+			ret, ok := is.Body.List[len(is.Body.List)-1].(*ast.ReturnStmt)
+			if !ok || len(ret.Results) == 0 {
+				continue
+			}
+			if id, ok := ast.Unparen(ret.Results[0]).(*ast.Ident); !ok || objOf(info, id) != typeParam {
+				continue
+			}
+			if eval(is.Cond, c.null) == T {
+				sentBack, at = exprString(is.Cond), is.Pos()
+				break
+			}
+		}
+		r.Count("branch orders of `T | null` evaluated against the pass's early exits", 1)
+		r.Check(sentBack == "", "normalform/null-union-both-orders", "DisjunctionWithNullToOptional rewrites "+c.name, at, "no early exit sends this union back unchanged",
+			fmt.Sprintf("for a two-branch union written `%s`, the exit `if %s { return <the type unchanged> }` is taken: the union stays in the IR (Python, PHP) or is wrapped into an object instead of becoming an optional T (Go, Java)", c.name, sentBack))
+	}
+}
+
+// the type that remains is taken from the non-null branches, not from a position
+func c06NullUnionRemainder(ctx *Ctx, r *Report, info *types.Info, fd *ast.FuncDecl, typeParam types.Object, nonNullVars map[types.Object]bool) {
+	n := 0
+	for _, st := range fd.Body.List {
+		ret, ok := st.(*ast.ReturnStmt)
+		if !ok || len(ret.Results) == 0 {
+			continue
+		}
+		id, ok := ast.Unparen(ret.Results[0]).(*ast.Ident)
+		if !ok || objOf(info, id) == typeParam {
+			continue
+		}
+		var def ast.Expr
+		ast.Inspect(fd.Body, func(q ast.Node) bool {
+			if as, ok := q.(*ast.AssignStmt); ok && as.Tok == token.DEFINE && len(as.Lhs) == 1 && len(as.Rhs) == 1 {
+				if l, ok := as.Lhs[0].(*ast.Ident); ok && info.Defs[l] == objOf(info, id) {
+					def = as.Rhs[0]
+				}
+			}
+			return true
+		})
+		n++
+		good := false
+		if ix, ok := ast.Unparen(def).(*ast.IndexExpr); ok {
+			switch x := ast.Unparen(ix.X).(type) {
+			case *ast.Ident:
+				good = nonNullVars[objOf(info, x)]
+			case *ast.CallExpr:
+				if fn := callee(info, x); fn != nil && fn.Name() == "NonNullTypes" {
+					good = true
+				}
+			}
+		}
+		what := "?"
+		if def != nil {
+			what = exprString(def)
+		}
+		r.Check(good, "normalform/null-union-both-orders", "DisjunctionWithNullToOptional keeps the non-null branch", ret.Pos(), "the remaining type is an element of NonNullTypes()",
+			fmt.Sprintf("the type returned in place of `T | null` is %s, not an element of NonNullTypes(): for one of the two branch orders the pass keeps `null` and drops T", what))
+	}
+	r.Count("results of DisjunctionWithNullToOptional traced to the non-null branches", n)
+	r.Floor("results of DisjunctionWithNullToOptional traced to the non-null branches", 1)
+}
+
+func constantInt64(tv types.TypeAndValue) (int64, bool) {
+	if tv.Value == nil {
+		return 0, false
+	}
+	return constant.Int64Val(tv.Value)
+}
+
+// c06NullableGuardExact: "every non-required field is nullable" — NotRequiredFieldAsNullableType must set Nullable for
+// every field that is not required: the statement that does it may only be conditioned on the field's Required and
+// Nullable. Any further condition (the field has a default, is of some kind, …) exempts fields from the clause; for Go
+// an exempted optional field is a plain value with `omitempty`, so its zero value (0, false, "") disappears on encoding.
+func c06NullableGuardExact(ctx *Ctx, r *Report) {
+	nt := ctx.LookupType("internal/ast/compiler", "NotRequiredFieldAsNullableType")
+	pkg := ctx.Pkg("internal/ast/compiler")
+	if nt == nil || pkg == nil {
+		r.Undecided("anchor lost: NotRequiredFieldAsNullableType")
+		return
+	}
+	info := pkg.TypesInfo
+	n := 0
+	for _, fd := range methodsOf(ctx, nt) {
+		fobj, _ := info.Defs[fd.Name].(*types.Func)
+		parents := parentMap(fd)
+		ast.Inspect(fd.Body, func(m ast.Node) bool {
+			as, ok := m.(*ast.AssignStmt)
+			if !ok || len(as.Lhs) != 1 {
+				return true
+			}
+			sel, ok := ast.Unparen(as.Lhs[0]).(*ast.SelectorExpr)
+			if !ok || sel.Sel.Name != "Nullable" {
+				return true
+			}
+			n++
+			bad := ""
+			for _, ctl := range controllingIfs(parents, fd, as) {
+				// error exits (`if err != nil { return }`) are not conditions on the field
+				if condTestsNonNilAny(info, ctl.Cond) {
+					continue
+				}
+				ast.Inspect(ctl.Cond, func(q ast.Node) bool {
+					if s, ok := q.(*ast.SelectorExpr); ok {
+						switch s.Sel.Name {
+						case "Required", "Nullable", "Type":
+						default:
+							if bad == "" {
+								bad = exprString(s)
+							}
+						}
+					}
+					if c, ok := q.(*ast.CallExpr); ok && bad == "" {
+						bad = exprString(c)
+					}
+					return true
+				})
+			}
+			r.Check(bad == "", "normalform/nullable-guard-exact", ctx.FuncName(fobj)+" sets Nullable", as.Pos(), "only Required and Nullable of the field decide",
+				fmt.Sprintf("%s makes a non-required field nullable only when %s also allows it: the other non-required fields stay plain values (Go: `T` with omitempty — a document giving them the zero value is re-encoded without the property)", ctx.FuncName(fobj), bad))
+			return true
+		})
+	}
+	r.Count("statements of NotRequiredFieldAsNullableType setting Nullable", n)
+	r.Floor("statements of NotRequiredFieldAsNullableType setting Nullable", 1)
+}
+
+func condTestsNonNilAny(info *types.Info, cond ast.Expr) bool {
+	be, ok := ast.Unparen(cond).(*ast.BinaryExpr)
+	if !ok || be.Op != token.NEQ {
+		return false
+	}
+	if !(isNilIdent(info, be.Y) || isNilIdent(info, be.X)) {
+		return false
+	}
+	for _, e := range []ast.Expr{be.X, be.Y} {
+		if t := info.TypeOf(e); t != nil && t.String() == "error" {
+			return true
+		}
 	}
 	return false
 }
